@@ -156,7 +156,13 @@ static inline cbor_item_t *mk_map(void) {
   it->type = CBOR_TYPE_MAP;
   it->metadata.map_metadata.type = nondet_bool() ? _CBOR_METADATA_DEFINITE : _CBOR_METADATA_INDEFINITE;
   size_t a = nondet_size(), e = nondet_size();
+#ifdef VERIF_MAP_HEAD_ONLY
+  /* an EMPTY map of any capacity (no pair is ever read): the head / size facts for capacities across the head-width
+   * boundaries 23/24, 255/256, ..., which the capacity-bounded map proofs cannot reach */
+  __CPROVER_assume(e == 0 && a <= VERIF_MAXCNT);
+#else
   __CPROVER_assume(e <= a && a <= VERIF_MAP_CAP);
+#endif
   it->metadata.map_metadata.allocated = a;
   it->metadata.map_metadata.end_ptr = e;
   if (a == 0 && it->metadata.map_metadata.type == _CBOR_METADATA_INDEFINITE)
